@@ -1,2 +1,171 @@
-(* C09 — placeholder while the correspondence is being built *)
-From SV Require Import Base Json MD5 Canon FS Ws Cache Repair CorrC09.
+(* C09 — state point corruption is always detected, never accepted, and repairable.
+   Only statements; models are SV.Cache (lookups, Job.init, _StatePointDict.load) and SV.Repair (check, repair),
+   proofs are in SV.C09Proofs.  The library oracles are Section variables of the models:
+     frepr   : float.__repr__
+     loads_s : bytes.decode() + json.loads(str)   (Project._get_statepoint_from_workspace: check, repair's lookup)
+     loads_b : json.loads(bytes)                  (_StatePointDict.load: open by id, Job.init)
+   The repair theorems assume only that both decoders invert the file printer (loads (dumps v) = v) and that
+   a value produced by the bytes decoder is also produced by the text decoder. *)
+From SV Require Import Base Json MD5 Canon FS Ws Cache CacheLemmas Repair CorrC08 CorrC09 C08Proofs C09Proofs.
+
+(* ---------------------------------------------------------------- check_exact
+   check() reports exactly the listed directories whose file is missing, undecodable, or decodes to a value
+   whose canonical hash differs from the directory name (valid f i = false), in listing order; it passes iff
+   there is none.  Precondition: the listed names are directories. *)
+Theorem C09_check_exact : forall frepr loads_s f ids,
+  (forall i, In i ids -> isdir f (jdir i) = true) ->
+  check_in frepr loads_s f ids =
+    match filter (fun i => negb (valid frepr loads_s f i)) ids with [] => CkOk | l => CkCorrupt l end.
+Proof. exact check_exact. Qed.
+Print Assumptions C09_check_exact.
+
+Theorem C09_invalid_means_missing_undecodable_or_rehashed : forall frepr loads_s f i,
+  valid frepr loads_s f i = false <->
+  (forall c, get f (spf i) <> Some (File c)) \/
+  (exists c, get f (spf i) = Some (File c) /\
+             (loads_s (c_bytes c) = None \/ exists v, loads_s (c_bytes c) = Some v /\ cid frepr v <> i)).
+Proof. exact valid_false_iff. Qed.
+Print Assumptions C09_invalid_means_missing_undecodable_or_rehashed.
+
+(* ---------------------------------------------------------------- damage_detected_iff_value_changed
+   For damaged bytes b in the file of job i (whose original value v0 hashes to i): the job is reported iff
+   b is undecodable or decodes to a value with another id; a text that decodes to the same value up to key
+   order is never reported (so every truncation, every value change incl. 1 -> 1.0 is caught exactly when
+   the decoded value differs); a changed value can go unreported only through an MD5 collision of the two
+   canonical texts (the named disjunct). *)
+Theorem C09_damage_detected_iff_value_changed : forall frepr loads_s f ids i c v0,
+  (forall j, In j ids -> isdir f (jdir j) = true) -> In i ids ->
+  get f (spf i) = Some (File c) -> cid frepr v0 = i ->
+  let reported := match check_in frepr loads_s f ids with CkCorrupt l => In i l | _ => False end in
+  (reported <-> (loads_s (c_bytes c) = None \/ exists v, loads_s (c_bytes c) = Some v /\ cid frepr v <> i)) /\
+  (forall v, loads_s (c_bytes c) = Some v -> norm v = norm v0 -> ~ reported) /\
+  (forall v, loads_s (c_bytes c) = Some v -> ~ reported ->
+     canon frepr v = canon frepr v0 \/
+     (canon frepr v <> canon frepr v0 /\ md5_hex (canon frepr v) = md5_hex (canon frepr v0))).
+Proof. exact damage_detected_iff_value_changed. Qed.
+Print Assumptions C09_damage_detected_iff_value_changed.
+
+(* ---------------------------------------------------------------- open_by_id_never_wrong
+   FULL STATEMENT: in a session whose caches are sound, statepoint() of a job opened by id either raises or
+   returns sp with calc_id sp = id.  It is FALSE of the present code in exactly one place, made explicit by
+   the characterisation: the loaded data is None (no file) and the id is md5("null") — then {} is returned
+   (C09_open_by_id_never_wrong_refuted, known finding 2).  Proved without that case (_partial). *)
+Theorem C09_open_by_id_characterised : forall frepr loads_b f s i s' sp,
+  Inv frepr f s -> open_sp_by_id frepr loads_b f s i = (s', Ok sp) ->
+  exists m, (m = i \/ resolve f WSP i = inl m) /\
+            (cid frepr sp = m \/ (m = cid frepr JNull /\ sp = JObj [] /\ sp_load frepr loads_b f m = Ok JNull)).
+Proof. exact open_by_id_characterised. Qed.
+Print Assumptions C09_open_by_id_characterised.
+
+Theorem C09_open_by_id_never_wrong_partial : forall frepr loads_b f s i s' sp,
+  Inv frepr f s -> open_sp_by_id frepr loads_b f s i = (s', Ok sp) ->
+  (forall m, sp_load frepr loads_b f m = Ok JNull -> False) ->
+  exists m, (m = i \/ resolve f WSP i = inl m) /\ cid frepr sp = m.
+Proof. exact open_by_id_never_wrong_partial. Qed.
+Print Assumptions C09_open_by_id_never_wrong_partial.
+
+Theorem C09_open_by_id_never_wrong_refuted :
+  Inv ex_fr w_fs2 fresh /\
+  (exists s', open_sp_by_id ex_fr w_lb w_fs2 fresh w_null = (s', Ok (JObj []))) /\
+  calc_id ex_fr (JObj []) <> w_null.
+Proof. exact open_by_id_never_wrong_refuted. Qed.
+Print Assumptions C09_open_by_id_never_wrong_refuted.
+
+(* ---------------------------------------------------------------- repair_restores
+   FULL STATEMENT: after repair(), every damaged job whose state point is in the sound cache, or whose intact
+   file sits in a misnamed directory with a free target, validates.  FALSE of the present code: the loop is
+   left by the first JobsCorruptedError (C09_repair_restores_refuted, known finding 1: the outcome depends on
+   the listing order).  Proved
+     * for cached jobs under "the loop is not left by an exception" (r is not RAbort) — _cached_partial;
+     * for a misnamed directory as a statement about the loop from the moment it reaches that directory —
+       _misnamed_partial (the part of the history before that moment is not covered).
+   Other hypotheses: the id is not md5("null"); no directory is named like a state point file or its temp
+   file (NoSpDirs); the workspace directory exists; the decoders invert the printer and agree on values. *)
+Theorem C09_repair_restores_cached_partial : forall frepr loads_s loads_b,
+  (forall v, loads_s (dumps frepr v) = Some v) -> (forall v, loads_b (dumps frepr v) = DVal v) ->
+  (forall b v, loads_b b = DVal v -> loads_s b = Some v) ->
+  forall f s ids f' s' r i c sp,
+  NoDup ids -> In i ids -> i <> cid frepr JNull ->
+  get f [WS] = Some Dir -> NoSpDirs f -> get f (jdir i) = Some Dir ->
+  cache_file f = Some c -> In (i, sp) c -> (forall v, In (i, v) c -> cid frepr v = i /\ is_objb v = true) ->
+  repair_in frepr loads_s loads_b f s ids = (f', s', r) -> (forall e l, r <> RAbort e l) ->
+  valid frepr loads_s f' i = true.
+Proof. exact repair_restores_cached_partial. Qed.
+Print Assumptions C09_repair_restores_cached_partial.
+
+Theorem C09_repair_restores_misnamed_partial : forall frepr loads_s loads_b,
+  (forall v, loads_s (dumps frepr v) = Some v) ->
+  (forall b v, loads_b b = DVal v -> loads_s b = Some v) ->
+  forall rest f s corrupted f' s' r j c v t,
+  WsOk f -> get f (jdir j) = Some Dir ->
+  alookup j (s_cache (ensure_read f s)) = None ->
+  get f (spf j) = Some (File c) -> loads_b (c_bytes c) = DVal v -> is_objb v = true ->
+  cid frepr v = t -> t <> j ->
+  (get f (jdir t) = None \/ get f (jdir t) = Some Dir) -> has_children f (jdir t) = false ->
+  ~ In t rest ->
+  repair_loop frepr loads_s loads_b f s (j :: rest) corrupted = (f', s', r) ->
+  valid frepr loads_s f' t = true.
+Proof. exact loop_restores_misnamed_partial. Qed.
+Print Assumptions C09_repair_restores_misnamed_partial.
+
+(* a job that validates is never damaged by the rest of the loop *)
+Theorem C09_repair_keeps_valid : forall frepr loads_s loads_b,
+  (forall v, loads_s (dumps frepr v) = Some v) ->
+  forall ids f s corrupted f' s' r i,
+  ~ In i ids -> WsOk f -> valid frepr loads_s f i = true ->
+  repair_loop frepr loads_s loads_b f s ids corrupted = (f', s', r) -> valid frepr loads_s f' i = true.
+Proof. intros frepr loads_s loads_b H. exact (loop_keeps_valid frepr loads_s loads_b H). Qed.
+Print Assumptions C09_repair_keeps_valid.
+
+(* the witness: job a has a truncated file, directory x holds the intact file of job t; listed [a; x] the
+   repair is left at a and t stays missing, listed [x; a] t is restored (replayed by harness/c09.py) *)
+Theorem C09_repair_restores_refuted :
+  get w_fs1 (spf w_x) = Some (File (sp_content ex_fr ex_u1)) /\
+  w_lb (dumps ex_fr ex_u1) = DVal ex_u1 /\ calc_id ex_fr ex_u1 = w_t /\ w_t <> w_x /\
+  get w_fs1 (jdir w_t) = None /\ has_children w_fs1 (jdir w_t) = false /\
+  (exists s', repair_in ex_fr w_ls w_lb w_fs1 fresh [w_a; w_x] = (w_fs1, s', RAbort EJobsCorrupted [w_a])) /\
+  valid ex_fr w_ls w_fs1 w_t = false /\
+  (exists f' s' r, repair_in ex_fr w_ls w_lb w_fs1 fresh [w_x; w_a] = (f', s', r) /\ valid ex_fr w_ls f' w_t = true).
+Proof. exact repair_restores_refuted. Qed.
+Print Assumptions C09_repair_restores_refuted.
+
+(* ---------------------------------------------------------------- repair_frame
+   repair() changes nothing outside the workspace, and inside it every file other than state point files
+   (and the JSON backend's temp name) keeps its bytes and its path relative to its job directory; only the
+   job directory's NAME may change.  No side condition: holds for every outcome, including the aborts. *)
+Theorem C09_repair_frame : forall frepr loads_s loads_b f s ids f' s' r,
+  repair_in frepr loads_s loads_b f s ids = (f', s', r) -> frame f f'.
+Proof. exact repair_frame. Qed.
+Print Assumptions C09_repair_frame.
+
+(* ---------------------------------------------------------------- never accepted: the session after repair
+   FULL STATEMENT (cache soundness is preserved by repair, so that a later open by id or update_cache cannot
+   serve a foreign state point): FALSE — the lookup with validate=False is registered (known finding 3). *)
+Theorem C09_repair_cache_sound_refuted :
+  Inv ex_fr w_fs3 fresh /\
+  exists f' s', repair_in ex_fr w_ls w_lb w_fs3 fresh [w_x; w_a] = (f', s', RCorrupt [w_x]) /\
+                alookup w_x (s_cache s') = Some ex_u0 /\ calc_id ex_fr ex_u0 <> w_x /\
+                (exists s'', open_sp_by_id ex_fr w_lb f' s' w_x = (s'', Ok ex_u0)).
+Proof. exact repair_cache_sound_refuted. Qed.
+Print Assumptions C09_repair_cache_sound_refuted.
+
+(* ---------------------------------------------------------------- licence for the correspondence
+   If the implementation agrees with the model on a case (mismatch_C09 c = false) whose listed names are
+   directories, the first clause of the oracle — check() names exactly the jobs the independent classifier
+   (decode table + model calc_id) calls damaged — holds on the implementation's answer.  The remaining clauses
+   are licensed by the theorems above under their stated preconditions; they are not lifted to the boolean
+   oracle. *)
+Theorem C09_model_holds : forall c,
+  (forall i, In i (c9_listing c) -> isdir (c9_fs c) (jdir i) = true) ->
+  mismatch_C09 c = false ->
+  ck_same (c9_check c) (expected_check c (c9_fs c) (c9_listing c)) = true.
+Proof. exact model_holds_check. Qed.
+Print Assumptions C09_model_holds.
+
+(* ---------------------------------------------------------------- non-vacuity
+   the hypotheses of the restoration theorems are satisfiable: on the witness project the misnamed directory
+   x, visited first, is moved to its true id t and validates *)
+Example C09_example_restores :
+  WsOk w_fs1 /\ get w_fs1 (jdir w_x) = Some Dir /\ alookup w_x (s_cache (ensure_read w_fs1 fresh)) = None /\
+  w_t <> w_x /\ ~ In w_t [w_a].
+Proof. exact w_fs1_hyps. Qed.
